@@ -147,7 +147,55 @@ def r_abs(x):
     return z3.If(x >= 0, x, -x)
 
 
+def f_arith_round_split(op, a, b):
+    """err = (e1, R): |computed - exact| <= u*e1 + u^2*R. e1 is the first-order bound (clean coefficients, what the proof
+    obligation is about), R collects every higher-order term rigorously (it may contain the numeral u)."""
+    exact = f_arith_exact(op, a, b)
+    # operations IEEE-754 performs without rounding: x+0, x-0, 0+x, x*1, 1*x, x/1, anything*0, and concrete operands whose
+    # concrete result is a double
+    ca = (not is_sym(a.r)) and a.err is None
+    cb = (not is_sym(b.r)) and b.err is None
+    if ca and cb:
+        if not is_sym(exact.r) and exact.r == Fraction(float(exact.r)):
+            return exact
+    if op in ("Add", "Sub") and cb and b.r == 0:
+        exact.err = a.err
+        return exact
+    if op in ("Add", "Sub") and ca and a.r == 0:
+        exact.err = b.err
+        return exact
+    if op in ("Mul", "Div") and cb and b.r == 1:
+        exact.err = a.err
+        return exact
+    if op == "Mul" and ca and a.r == 1:
+        exact.err = b.err
+        return exact
+    if op == "Mul" and ((ca and a.r == 0) or (cb and b.r == 0)):
+        return exact
+    z = z3.RealVal(0)
+    ea1, Ra = a.err if a.err is not None else (z, z)
+    eb1, Rb = b.err if b.err is not None else (z, z)
+    ra, rb, r = r_abs(to_real(a.r)), r_abs(to_real(b.r)), r_abs(to_real(exact.r))
+    u = to_real(U53)
+    if op in ("Add", "Sub"):
+        i1, iR = ea1 + eb1, Ra + Rb
+    elif op == "Mul":
+        i1 = ra * eb1 + rb * ea1
+        iR = ra * Rb + rb * Ra + ea1 * eb1 + u * (ea1 * Rb + eb1 * Ra) + u * u * Ra * Rb
+    elif op == "Div":
+        if b.err is not None:
+            raise Unsupported("rounding analysis: division by an inexact value")
+        i1, iR = ea1 / rb, Ra / rb
+    else:
+        raise Unsupported("rounding analysis: " + op)
+    # err = inh + u*(|r| + inh),  inh = u*i1 + u^2*iR
+    exact.err = (z3.simplify(i1 + r), z3.simplify(iR * (1 + u) + i1))
+    return exact
+
+
 def f_arith_round(op, a, b):
+    if ROUND["on"] == "split":
+        return f_arith_round_split(op, a, b)
     exact = f_arith_exact(op, a, b)
     ea = a.err if a.err is not None else 0
     eb = b.err if b.err is not None else 0
@@ -782,7 +830,7 @@ class Machine:
             a = self.operand(rv[2], frame)
             if rv[1] == "Neg":
                 if isinstance(a, F):
-                    return F(-a.r, a.bad)
+                    return F(-a.r, a.bad, -a.inf if a.inf else 0, a.err)    # negation is exact: the error bound carries over
                 return -a
             if rv[1] == "Not":
                 if isinstance(a, (bool, z3.BoolRef)):
